@@ -257,3 +257,29 @@ package repository
 //@   ensures [lock-balanced] forall m *sync.Mutex :: { sync.mheld[m] } sync.mheld[m] == old(sync.mheld[m])
 //@   loop 1
 //@     invariant sync.mheld[&repo.clocksMutex] && (forall m *sync.Mutex :: { sync.mheld[m] } m != &repo.clocksMutex ==> sync.mheld[m] == old(sync.mheld[m]))
+
+// Writing a tree (C15: every object written is a well-formed git object): one entry per entry given, with the mode
+// of its kind, in the order git requires - by name, a directory comparing as if its name ended in "/" (git fsck
+// reports treeNotSorted otherwise, and other git tools misread such trees).
+//@ spec func gitKey(name string, isDir bool) string = name + (isDir ? "/" : "")
+//@ func (*GoGitRepo).StoreTree$1
+//@   props C15
+//@   modifies nothing
+//@   ensures result == (gitKey(sorted[i].Name, sorted[i].ObjectType == Tree) < gitKey(sorted[j].Name, sorted[j].ObjectType == Tree))
+//@ func (*GoGitRepo).StoreTree
+//@   props C15
+//@   assert at `obj := repo.r.Storer.NewEncodedObject()` [entries-in-git-order] len(tree.Entries) == len(mapping) && (forall k int :: { tree.Entries[k] } forall l int :: { tree.Entries[l] } 0 <= k && k < l && l < len(tree.Entries) ==> !(gitKey(tree.Entries[l].Name, tree.Entries[l].Mode == filemode.Dir) < gitKey(tree.Entries[k].Name, tree.Entries[k].Mode == filemode.Dir)))
+//@   loop 1
+//@     invariant len(tree.Entries) == rangeindex + 1 && len(sorted) == len(mapping) && (tree.Entries == nil || fresh(tree.Entries))
+//@     invariant forall k int :: { tree.Entries[k] } 0 <= k && k < len(tree.Entries) ==> tree.Entries[k].Name == sorted[k].Name && (tree.Entries[k].Mode == filemode.Dir) == (sorted[k].ObjectType == Tree)
+//@     invariant forall k int :: { sorted[k] } forall l int :: { sorted[l] } 0 <= k && k < l && l < len(sorted) ==> !(gitKey(sorted[l].Name, sorted[l].ObjectType == Tree) < gitKey(sorted[k].Name, sorted[k].ObjectType == Tree))
+
+// Listing refs (C14, C15: everything above works on "the refs with this prefix"): the callback keeps a reference
+// exactly when its full name starts with the prefix asked for, appends it once, and never stops the iteration.
+//@ func (*GoGitRepo).ListRefs$1
+//@   props C14 C15
+//@   requires ref != nil
+//@   let name = ref.Name().String()
+//@   ensures [never-stops-the-iteration] result == nil
+//@   ensures [kept-iff-prefix] strings.HasPrefix(name, refPrefix) ==> len(refs) == len(refs0) + 1 && refs[len(refs) - 1] == name && (forall k int :: { refs[k] } 0 <= k && k < len(refs0) ==> refs[k] == old(refs0[k]))
+//@   ensures [others-skipped] !strings.HasPrefix(name, refPrefix) ==> refs == refs0
